@@ -326,6 +326,9 @@ func VerifC14_BlockVersion() {
 // verification is available, the mix digest equals the ethash digest and
 // result * difficulty <= 2^256 (digest/result uninterpreted).
 func VerifC14_SealEthash() {
+	if !vs.Symbolic() {
+		return // depends on engine-only stubs (suite: no_native); nothing to run natively
+	}
 	header := c14Header(1)
 	vs.Assume(header.Number.Cmp(big.NewInt(2048*30000)) < 0)
 	engine := &Aquahash{config: &Config{PowMode: ModeNormal}}
@@ -352,6 +355,9 @@ func VerifC14_SealEthash() {
 // nonces it tried meets the target.  Precondition (established by Finalize and
 // Prepare): header.Version is the version mined with, difficulty > 0.
 func VerifC14_Mine() {
+	if !vs.Symbolic() {
+		return // depends on engine-only stubs (suite: no_native); nothing to run natively
+	}
 	v := 1 + vs.Choice("version", 4)
 	header := c14Header(v)
 	header.MixDigest, header.Nonce = common.Hash{}, types.BlockNonce{}
